@@ -253,6 +253,8 @@ class Fault:
             return False
         if s.get('plural') is not None and s['plural'] != req['plural']:
             return False
+        if s.get('ns') is not None and s['ns'] != req.get('ns'):
+            return False
         if s.get('client') is not None and s['client'] != req['client']:
             return False
         return True
